@@ -168,6 +168,18 @@ func vSmallXfer(rc *runCtx, timeouts []int) (*vXferConfig, *xferOpts, vSnap) {
 	if pipelined {
 		cfg.bufSize = []string{"1K", "4k"}[tp.Draw("f.pbuf", 2)]
 	}
+	slowdisk := rc.param("slowdisk", "") == "1"
+	if slowdisk {
+		// a download of several megabytes whose decoded blocks queue up behind a slow disk
+		cfg.upload = false
+		cfg.binary = true
+		cfg.escapeAll = false
+		cfg.compress = "no"
+		cfg.bufSize = ""
+		cfg.dirMode = false
+		cfg.relays = 0
+		pipelined = false
+	}
 	dataflips := rc.param("dataflips", "") == "1"
 	if dataflips {
 		// every bit of the data chunks: small files that travel uncompressed (a damaged compressed stream fails
@@ -189,6 +201,14 @@ func vSmallXfer(rc *runCtx, timeouts []int) (*vXferConfig, *xferOpts, vSnap) {
 			vWriteFile(p, tp.Bytes("f.dcontent", 60+tp.Draw("f.dsize", 300)))
 			spec.paths = append(spec.paths, p)
 		}
+	}
+	if slowdisk {
+		for _, p := range spec.paths {
+			os.RemoveAll(p)
+		}
+		p := filepath.Join(src, "big.bin")
+		vWriteFile(p, tp.Bytes("f.slowbig", (4<<20)+tp.Draw("f.slowbigsz", 4<<20)))
+		spec.paths, spec.files = []string{p}, 1
 	}
 	if pipelined {
 		big := tp.Bytes("f.pbig", 40000+tp.Draw("f.pbigsz", 90000))
@@ -388,12 +408,17 @@ func vScenarioC11(rc *runCtx) {
 	}
 	c11kinds := []string{"silent-up", "silent-down", "silent-both", "close-up", "close-down", "break-up", "break-down", "disk-write", "disk-short-write", "src-read-error", "src-shrink", "stall-client", "stall-server"}
 	kind := c11kinds[tp.Draw("c11.kind", 13)]
+	if rc.param("slowdisk", "") == "1" {
+		kind = "disk-slow-then-full"
+	}
 	if v, ok := rc.enumInt("enum_kind"); ok {
 		kind = c11kinds[v%13]
 	}
 	pm := []int{40, 120, 400}[tp.Draw("c11.rate", 3)]
 	var faultAt time.Duration = -1
 	brokeUp, brokeDown := false, false
+	var shrunkPath string
+	var shrunkOrig []byte
 	fr := &vFirer{rc: rc, label: "c11.fire", pm: pm, once: true}
 	x.firers = append(x.firers, fr)
 	fire := func() bool {
@@ -483,6 +508,20 @@ func vScenarioC11(rc *runCtx) {
 			}
 			return d
 		})
+	case "disk-slow-then-full":
+		// one write of the receiving client takes seconds (decoded blocks pile up behind it), the next one fails
+		d := &verifsim.DiskFaults{WriteErr: syscall.ENOSPC, ShortWrite: tp.Bool("c11.slowshort", 500)}
+		w.Disk = d
+		slowAt := 1 + tp.Draw("c11.slowat", 6)
+		slowFor := time.Duration(2+tp.Draw("c11.slowfor", 6)) * time.Second
+		d.OnWrite = func(call int, f *os.File) {
+			if faultAt < 0 && call >= slowAt && verifsim.CurProc() == x.client {
+				rc.fault("disk-slow")
+				verifsim.Sleep(slowFor)
+				d.FailWriteAt = call + 1
+				mark()
+			}
+		}
 	case "disk-write", "disk-short-write", "src-read-error", "src-shrink":
 		d := &verifsim.DiskFaults{ReadErr: syscall.EIO, WriteErr: syscall.ENOSPC}
 		if kind == "disk-short-write" {
@@ -504,6 +543,31 @@ func vScenarioC11(rc *runCtx) {
 				}
 			}
 		} else {
+			// a directory sent as one archive stream reads its files without going through the per-file reader:
+			// there the file shrinks at a tape-chosen message instead (the largest file still present)
+			shrinkAny := func(l *verifsim.Link, dd []byte) []byte {
+				if faultAt < 0 && cfg.dirMode && fire() {
+					var victim string
+					var vsize int64
+					for _, sp := range o.srcPaths {
+						filepath.Walk(sp, func(p string, info os.FileInfo, err error) error {
+							if err == nil && info.Mode().IsRegular() && info.Size() > vsize {
+								victim, vsize = p, info.Size()
+							}
+							return nil
+						})
+					}
+					if victim != "" && vsize > 1 {
+						shrunkPath = victim
+						shrunkOrig, _ = os.ReadFile(victim)
+						os.Truncate(victim, vsize/2)
+						mark()
+					}
+				}
+				return dd
+			}
+			wrap(up, shrinkAny)
+			wrap(down, shrinkAny)
 			d.OnRead = func(call int, f *os.File) {
 				if faultAt < 0 && fire() {
 					if st, err := f.Stat(); err == nil && st.Size() > 1 {
@@ -579,7 +643,11 @@ func vScenarioC11(rc *runCtx) {
 		rc.violate("late", "C11:late-client:"+kind, "%s at %v (reference %v): the client returned only at %v, more than 3*max(T,20s)+10s (T=%v) later", kind, faultAt, ref, x.clientDoneAt, T)
 		return
 	}
-	// a side that reports success must have the files right
+	// a side that reports success must have the files right (a file that was cut behind the reader's back is
+	// compared as it was while it was read: if the cut came after its last byte had been taken, success is right)
+	if shrunkPath != "" {
+		os.WriteFile(shrunkPath, shrunkOrig, 0644)
+	}
 	vCheckFidelity(rc, x, rep, before, false)
 	if rc.res.Class == "violation" {
 		rc.res.Sig = strings.Replace(rc.res.Sig, "C01:", "C11:", 1)
